@@ -216,6 +216,13 @@ class JSSPDomainWallHamiltonianEncoder:
                         max_constraints_per_variable = self._operation_constraint_counts[(operation, start_time)]
                 variable_viability_terms.append((max_constraints_per_variable + 1) * viability_term)
 
+        # An instance may need no constraint of some kind, for instance if each job consists of a single operation or if
+        # no two operations share a machine. The sum of no terms is the zero observable.
+        if len(precedence_terms) == 0:
+            precedence_terms.append(0 * pauli_identity_string(n_qubits=self._n_qubits))
+        if len(overlap_terms) == 0:
+            overlap_terms.append(0 * pauli_identity_string(n_qubits=self._n_qubits))
+
         makespan_term = self._makespan_optimization_term()
 
         early_start_term = self._early_start_term()
